@@ -179,6 +179,34 @@ func c17Facts(fc *facts) {
 		problemFor([]string{"bloomBits", "bloomHashes"}, "NewTable: bloom.NewFilter(<const>, <const>) not found")
 	}
 
+	// TableDocument: the fields encoding/json writes, in order, with the types the JSON model assumes
+	// (keys as []byte => base64; no struct tags => Go field names)
+	var docFields []string
+	docTagged := false
+	ast.Inspect(tb, func(x ast.Node) bool {
+		ts, ok := x.(*ast.TypeSpec)
+		if !ok || ts.Name.Name != "TableDocument" {
+			return true
+		}
+		if st, ok := ts.Type.(*ast.StructType); ok {
+			for _, f := range st.Fields.List {
+				typ := selName(f.Type)
+				if at, ok := f.Type.(*ast.ArrayType); ok && at.Len == nil {
+					typ = "[]" + selName(at.Elt)
+				}
+				if f.Tag != nil {
+					docTagged = true
+				}
+				for _, n := range f.Names {
+					docFields = append(docFields, n.Name+":"+typ)
+				}
+			}
+		}
+		return false
+	})
+	fc.set("sstDocShape", 1, !docTagged && strings.Join(docFields, ",") == "StartKey:[]byte,EndKey:[]byte,Size:uint64,EntriesSize:uint64,URI:string,StartSeqNum:uint64,EndSeqNum:uint64",
+		"TableDocument{StartKey, EndKey []byte; Size, EntriesSize uint64; URI string; StartSeqNum, EndSeqNum uint64} without tags")
+
 	// WriteRun: math.Floor(float64(targetSize) * 1.5)
 	tw := parseFile("dkv/sst/table_writer.go")
 	var floats []string
